@@ -15,8 +15,9 @@
    Conventions
    * archetype instances (MPCalContexts) are numbered; the vector-clock key (archetype name, self) of
      instance a is the number a.  A VClock (immutable.Map from key to int) is the dense vector of its entries.
-   * TLA+ values are integers; a local variable may also hold a function from integers to integers
-     (accessed as x[i]), which is what reaches localArchetypeSubResource.
+   * TLA+ values are integers; a local or shared variable may also hold a function from integers to integers
+     (accessed as x[i]), which is what reaches localArchetypeSubResource.  The ghost writer tag of such a
+     variable names the attempt that last wrote any of its cells.
    * a program is, per archetype, a list of labels; a label is a list of tries (ops, forced abort): the n-th
      attempt of the label runs try min(n, last).  A label that commits goes to the next one; after the last
      label the archetype reaches Done.  This is the scripted body of the harness; the theorems hold for every
@@ -587,14 +588,14 @@ Definition arch_init (a : nat) (c : acfg) : arch :=
   mkArch (c_prog c) (fun _ => 0) [] false 0 0%Z [] [] (lres_init (VInt 0) a)
          (fun k => lres_init (nth k (c_locals c) (VInt 0)) a) [] (fun _ => []) 0 [] [] [] [].
 
-Record cfg := mkCfg { cf_archs : list acfg; cf_shared : list Z; cf_owner : list nat }.
+Record cfg := mkCfg { cf_archs : list acfg; cf_shared : list val; cf_owner : list nat }.
 
 Definition no_arch : acfg := mkACfg [] [].
 
 (* every context is created, then every Run starts and goes up to its first scripted op *)
 Definition init (c : cfg) : state :=
   let st0 := mkState (fun a => arch_init a (nth a (cf_archs c) no_arch))
-                     (fun j => mkShr (lres_init (VInt (nth j (cf_shared c) 0%Z)) (List.length (cf_archs c))) None)
+                     (fun j => mkShr (lres_init (nth j (cf_shared c) (VInt 0%Z)) (List.length (cf_archs c))) None)
                      (fun _ => []) (fun _ => [])
                      (fun m => nth m (cf_owner c) 0) (List.length (cf_archs c)) in
   fold_left begin_attempt (seq 0 (List.length (cf_archs c))) st0.
